@@ -16,6 +16,8 @@ pub mod signature;
 pub mod support;
 pub mod utils;
 pub mod value;
+#[cfg(feature = "verif")]
+pub mod verif;
 
 use fnv::FnvBuildHasher;
 use hashbrown::HashSet;
